@@ -23,6 +23,9 @@ def configs(tier):
     # property values next to the canonical ones (a colour without '#'): one property per configuration, see ASSUME
     cprops = {"cal": {"calcolor": ["ff0000", "#00ff00"]}, "ab": {"abcolor": ["0000ff"]}}
     out.append(Config(front="wsgi", backend="tree", prefix="/", features={"nope"}, bodies={"cal": ["X"], "ab": ["K"], "c2": []}, props=cprops, oracles={"C08"}, label="tree/wsgi+colours"))
+    # reads that build the query index (threshold 0) next to members that are not calendars
+    out.append(Config(front="wsgi", backend="tree", prefix="/", threshold=0, features={"queries"}, names={"cal": ["a.ics", "n.txt"], "ab": [], "c2": []}, bodies={"cal": ["X", "TXT"], "ab": [], "c2": []},
+                      props={}, oracles={"C08"}, label="tree/wsgi+index+plain-files"))
     out.append(Config(front="wsgi", backend="bare", prefix="/", features={"two-workers"}, names={"cal": ["a.ics", "b.ics"], "ab": ["a.vcf"], "c2": []}, bodies={"cal": ["X", "X2"], "ab": ["K"], "c2": []},
                       props={"cal": {"displayname": ["d1"]}}, oracles={"C08"}, label="bare/wsgi+two-workers"))
     if tier == "thorough":
